@@ -95,7 +95,23 @@ Proof. induction l; simpl; auto. unfold entries in *. simpl. f_equal. auto. Qed.
 Lemma markers_map_REnt : forall l, markers (map REnt l) = [].
 Proof. induction l; simpl; auto. Qed.
 
+Lemma pmarkers_map_REnt : forall l, pmarkers (map REnt l) = [].
+Proof. induction l; simpl; auto. Qed.
+
+Lemma pmarkers_sub : forall l i, In i (pmarkers l) -> In i (markers l).
+Proof.
+  induction l as [|r l IH]; intros i H; [exact H|].
+  unfold pmarkers, markers in *. simpl in *. apply in_app_or in H. apply in_or_app. destruct H as [H|H]; [left|right; auto].
+  destruct r as [e|c|m|v h m]; simpl in *; auto. destruct v; simpl in *; auto.
+Qed.
+
 Definition is_state (r : rec) : bool := match r with RState _ => true | _ => false end.
+
+Lemma pmarkers_states : forall l, forallb is_state l = true -> pmarkers l = [].
+Proof.
+  induction l; simpl; intros; auto.
+  apply andb_true_iff in H. destruct H. destruct a; simpl in *; try discriminate. unfold pmarkers in *. simpl. auto.
+Qed.
 
 Lemma entries_states : forall l, forallb is_state l = true -> entries l = [].
 Proof.
@@ -114,7 +130,7 @@ Lemma last_commit_app : forall a b,
 Proof. intros. unfold last_commit. rewrite fold_left_app. reflexivity. Qed.
 
 Lemma last_entry_app : forall a b,
-  last_entry (a ++ b) = fold_left (fun acc r => match r with REnt i => i | RSnapIn _ _ i => N.max acc i | _ => acc end) b (last_entry a).
+  last_entry (a ++ b) = fold_left (fun acc r => match r with REnt i => i | RSnapIn true _ i => N.max acc i | _ => acc end) b (last_entry a).
 Proof. intros. unfold last_entry. rewrite fold_left_app. reflexivity. Qed.
 
 Lemma last_nonempty_default : forall (n : N) l d1 d2, last (n :: l) d1 = last (n :: l) d2.
@@ -122,7 +138,7 @@ Proof. intros n l. revert n. induction l; intros; [reflexivity|]. change (last (
 
 (* last_entry only depends on the entries *)
 Lemma last_entry_entries : forall l d, local_recs l ->
-  fold_left (fun acc r => match r with REnt i => i | RSnapIn _ _ i => N.max acc i | _ => acc end) l d = last (entries l) d.
+  fold_left (fun acc r => match r with REnt i => i | RSnapIn true _ i => N.max acc i | _ => acc end) l d = last (entries l) d.
 Proof.
   induction l; simpl; intros d Hl; auto.
   apply local_recs_cons in Hl. destruct Hl as [Ha Hl].
@@ -237,9 +253,9 @@ Fixpoint seg_chain (lo : N) (ss : list seg) (hi : N) : Prop :=
   | [] => False
   | s :: t =>
     match t with
-    | [] => entries (srecs s) = range lo hi /\ lo <= hi /\ (forall i, In i (markers (srecs s)) -> i <= hi)
+    | [] => entries (srecs s) = range lo hi /\ lo <= hi /\ (forall i, In i (pmarkers (srecs s)) -> i <= hi)
     | s2 :: _ => exists mid, entries (srecs s) = range lo mid /\ lo <= mid
-                  /\ (forall i, In i (markers (srecs s)) -> i <= mid)
+                  /\ (forall i, In i (pmarkers (srecs s)) -> i <= mid)
                   /\ sfirst s2 = mid + 1 /\ seg_chain mid t hi
     end
   end.
@@ -247,12 +263,12 @@ Fixpoint seg_chain (lo : N) (ss : list seg) (hi : N) : Prop :=
 Definition lo_of (ss : list seg) : N := N.pred (sfirst (hd (mkSeg 0 []) ss)).
 
 Lemma seg_chain_one : forall lo s hi,
-  seg_chain lo [s] hi <-> (entries (srecs s) = range lo hi /\ lo <= hi /\ (forall i, In i (markers (srecs s)) -> i <= hi)).
+  seg_chain lo [s] hi <-> (entries (srecs s) = range lo hi /\ lo <= hi /\ (forall i, In i (pmarkers (srecs s)) -> i <= hi)).
 Proof. reflexivity. Qed.
 
 Lemma seg_chain_cons2 : forall lo s s2 t hi,
   seg_chain lo (s :: s2 :: t) hi <->
-  exists mid, entries (srecs s) = range lo mid /\ lo <= mid /\ (forall i, In i (markers (srecs s)) -> i <= mid)
+  exists mid, entries (srecs s) = range lo mid /\ lo <= mid /\ (forall i, In i (pmarkers (srecs s)) -> i <= mid)
               /\ sfirst s2 = mid + 1 /\ seg_chain mid (s2 :: t) hi.
 Proof. reflexivity. Qed.
 
@@ -274,13 +290,13 @@ Proof.
     symmetry. apply range_app; auto. eapply seg_chain_le; eauto.
 Qed.
 
-Lemma seg_chain_markers : forall ss lo hi i, seg_chain lo ss hi -> In i (markers (all_recs ss)) -> i <= hi.
+Lemma seg_chain_markers : forall ss lo hi i, seg_chain lo ss hi -> In i (pmarkers (all_recs ss)) -> i <= hi.
 Proof.
   induction ss as [|s t IH]; intros lo hi i H Hi; [destruct H|].
   destruct t as [|s2 t2].
   - destruct H as [_ [_ M]]. unfold all_recs in Hi. simpl in Hi. rewrite app_nil_r in Hi. auto.
   - destruct H as [mid [_ [_ [M [_ C]]]]].
-    rewrite all_recs_cons, markers_app in Hi. apply in_app_or in Hi. destruct Hi as [Hi|Hi].
+    rewrite all_recs_cons, pmarkers_app in Hi. apply in_app_or in Hi. destruct Hi as [Hi|Hi].
     + apply M in Hi. apply seg_chain_le in C. lia.
     + eapply IH; eauto.
 Qed.
@@ -289,13 +305,13 @@ Qed.
 Lemma seg_chain_app_tail : forall ss lo hi rs hi',
   seg_chain lo ss hi ->
   entries rs = range hi hi' -> hi <= hi' ->
-  (forall i, In i (markers rs) -> i <= hi') ->
+  (forall i, In i (pmarkers rs) -> i <= hi') ->
   seg_chain lo (app_tail ss rs) hi'.
 Proof.
   induction ss as [|s t IH]; intros lo hi rs hi' H E L M; [destruct H|].
   destruct t as [|s2 t2].
   - destruct H as [E0 [L0 M0]].
-    rewrite app_tail_one. apply seg_chain_one. simpl. rewrite entries_app, markers_app, E0, E. split; [|split].
+    rewrite app_tail_one. apply seg_chain_one. simpl. rewrite entries_app, pmarkers_app, E0, E. split; [|split].
     + symmetry. apply range_app; auto.
     + lia.
     + intros i Hi. apply in_app_or in Hi. destruct Hi as [Hi|Hi]; [apply M0 in Hi; lia | auto].
@@ -311,7 +327,7 @@ Qed.
 
 (* a cut: a new tail segment named hi+1 *)
 Lemma seg_chain_cut : forall ss lo hi rs,
-  seg_chain lo ss hi -> entries rs = [] -> markers rs = [] ->
+  seg_chain lo ss hi -> entries rs = [] -> pmarkers rs = [] ->
   seg_chain lo (ss ++ [mkSeg (hi + 1) rs]) hi.
 Proof.
   induction ss as [|s t IH]; intros lo hi rs H E M; [destruct H|].
@@ -334,12 +350,12 @@ Proof.
   unfold lo_of. simpl. rewrite F. replace (N.pred (mid + 1)) with mid by lia. exact C.
 Qed.
 
-(* removing state records from the end of the tail segment changes neither entries nor markers *)
+(* removing state records from the end of the tail segment changes neither entries nor pmarkers *)
 Lemma seg_chain_ext : forall ss ss' lo hi,
   seg_chain lo ss hi ->
   map sfirst ss' = map sfirst ss ->
   map (fun s => entries (srecs s)) ss' = map (fun s => entries (srecs s)) ss ->
-  map (fun s => markers (srecs s)) ss' = map (fun s => markers (srecs s)) ss ->
+  map (fun s => pmarkers (srecs s)) ss' = map (fun s => pmarkers (srecs s)) ss ->
   seg_chain lo ss' hi.
 Proof.
   induction ss as [|s t IH]; intros ss' lo hi H F E M; [destruct H|].
@@ -405,7 +421,7 @@ Lemma read_chain : forall ss lo hi i,
   seg_chain lo ss hi -> lo <= i -> sfirst (hd (mkSeg 0 []) ss) <= i ->
   exists p lo', cov ss i = Some p /\ (p < length ss)%nat
     /\ entries (all_recs (skipn p ss)) = range lo' hi /\ lo' <= i /\ lo' <= hi
-    /\ (In i (markers (all_recs ss)) -> In i (markers (all_recs (skipn p ss)))).
+    /\ (In i (pmarkers (all_recs ss)) -> In i (pmarkers (all_recs (skipn p ss)))).
 Proof.
   induction ss as [|s t IH]; intros lo hi i H L Hf; [destruct H|].
   simpl in Hf.
@@ -418,7 +434,7 @@ Proof.
     + destruct (IH mid hi i C ltac:(lia) ltac:(simpl; lia)) as [p [lo' [Hc [Hp [He [Hl [Hl2 Hm]]]]]]].
       exists (S p), lo'. change (cov (s :: s2 :: t2) i) with (match cov (s2 :: t2) i with Some q => Some (S q) | None => if sfirst s <=? i then Some 0%nat else None end).
       rewrite Hc. split; [reflexivity|]. split; [simpl in *; lia|]. split; [exact He|]. split; [exact Hl|]. split; [exact Hl2|].
-      intros Hi. apply Hm. rewrite all_recs_cons, markers_app in Hi. apply in_app_or in Hi.
+      intros Hi. apply Hm. rewrite all_recs_cons, pmarkers_app in Hi. apply in_app_or in Hi.
       destruct Hi as [Hi|Hi]; auto. apply M0 in Hi. lia.
     + exists 0%nat, lo. change (cov (s :: s2 :: t2) i) with (match cov (s2 :: t2) i with Some q => Some (S q) | None => if sfirst s <=? i then Some 0%nat else None end).
       rewrite (cov_none_later _ _ _ _ _ C F) by lia.
@@ -445,7 +461,35 @@ Lemma read_step_snapin : forall i st v h m,
   read_step i (Ok st) (RSnapIn v h m) = if m =? i then Ok (mkReadst (rd_ents st) (rd_commit st) true) else Ok st.
 Proof. reflexivity. Qed.
 
-Lemma read_flat : forall R i hi st x, local_recs R ->
+Lemma range_prefix : forall h m x hi (l : list N), h < m -> range h m ++ l = range x hi -> x = h /\ m <= hi /\ l = range m hi.
+Proof.
+  intros h m x hi l Hhm E.
+  assert (Hx : x < hi).
+  { destruct (N.ltb_spec x hi); auto. rewrite (range_nil x hi) in E by lia. rewrite (range_cons h m) in E by lia. discriminate. }
+  assert (Exh : x = h).
+  { rewrite (range_cons h m) in E by lia. rewrite (range_cons x hi) in E by lia. simpl in E. injection E as E1 _. lia. }
+  subst x.
+  assert (Hle : m <= hi).
+  { assert (El : length (range h m ++ l) = length (range h hi)) by (rewrite E; reflexivity).
+    rewrite app_length, !range_length in El. lia. }
+  split; [reflexivity|]. split; [exact Hle|].
+  rewrite (range_app h m hi) in E by lia. apply app_inv_head in E. exact E.
+Qed.
+
+(* the validated incoming markers of a record list, with the log index they were written at *)
+Definition jumps (rs : list rec) : list (N * N) :=
+  flat_map (fun r => match r with RSnapIn true h m => [(h, m)] | _ => [] end) rs.
+
+Lemma jumps_app : forall a b, jumps (a ++ b) = jumps a ++ jumps b.
+Proof. intros. unfold jumps. rewrite flat_map_app. reflexivity. Qed.
+
+Lemma seqN_range : forall h m, seqN (h + 1) (N.to_nat (m - h)) = range h m.
+Proof. reflexivity. Qed.
+
+(* ReadAll from i over records whose entries (with the indices an incoming snapshot stands for) are x+1 .. hi, when
+   no validated incoming marker is above i: what they stand for is at or below i and is skipped like real entries *)
+Lemma read_flat : forall R i hi st x,
+  (forall h m, In (h, m) (jumps R) -> m <= i /\ h < m) ->
   entries R = range x hi -> x <= hi ->
   rd_ents st = range i (N.max i x) ->
   exists st', fold_left (read_step i) R (Ok st) = Ok st'
@@ -453,13 +497,14 @@ Lemma read_flat : forall R i hi st x, local_recs R ->
     /\ rd_match st' = (rd_match st || memN i (markers R))
     /\ rd_commit st' = fold_left (fun acc r => match r with RState c => c | _ => acc end) R (rd_commit st).
 Proof.
-  induction R as [|r R IH]; intros i hi st x HL E L Hst.
+  induction R as [|r R IH]; intros i hi st x HJ E L Hst.
   - simpl in *. exists st. split; auto. split.
     + assert (x = hi). { destruct (N.eq_dec x hi); auto. exfalso. rewrite range_cons in E by lia. discriminate. }
       subst. exact Hst.
     + split; auto. rewrite orb_false_r. reflexivity.
-  - apply local_recs_cons in HL. destruct HL as [Hr HL].
-    destruct r as [e|c|m|v h m]; [| | |discriminate Hr].
+  - assert (HJ' : forall h m, In (h, m) (jumps R) -> m <= i /\ h < m).
+    { intros h m Hin. apply HJ. change (r :: R) with ([r] ++ R). rewrite jumps_app. apply in_or_app. right. exact Hin. }
+    destruct r as [e|c|m|v h m].
     + (* entry *)
       unfold entries in E. simpl in E. fold (entries R) in E.
       assert (Hx : x < hi). { destruct (N.ltb_spec x hi); auto. rewrite range_nil in E by lia. discriminate. }
@@ -470,12 +515,12 @@ Proof.
         assert (Hlen : length (rd_ents st) = N.to_nat (e - i - 1)). { rewrite Hst, range_length. lia. }
         rewrite Hlen, Nat.ltb_irrefl.
         rewrite <- Hlen, firstn_all.
-        destruct (IH i hi (mkReadst (rd_ents st ++ [e]) (rd_commit st) (rd_match st)) (x + 1) HL ER ltac:(lia)) as [st' [F [A [B C]]]].
+        destruct (IH i hi (mkReadst (rd_ents st ++ [e]) (rd_commit st) (rd_match st)) (x + 1) HJ' ER ltac:(lia)) as [st' [F [A [B C]]]].
         { simpl. rewrite Hst. subst e. replace (N.max i (x + 1)) with (x + 1) by lia. symmetry. apply range_snoc. lia. }
         exists st'. split; [exact F|]. split; [exact A|]. split.
         -- rewrite B. simpl. unfold markers. simpl. reflexivity.
         -- rewrite C. reflexivity.
-      * destruct (IH i hi (mkReadst [] (rd_commit st) (rd_match st)) (x + 1) HL ER ltac:(lia)) as [st' [F [A [B C]]]].
+      * destruct (IH i hi (mkReadst [] (rd_commit st) (rd_match st)) (x + 1) HJ' ER ltac:(lia)) as [st' [F [A [B C]]]].
         { simpl. rewrite range_nil by lia. reflexivity. }
         exists st'. split; [exact F|]. split; [exact A|]. split.
         -- rewrite B. unfold markers. simpl. reflexivity.
@@ -483,7 +528,7 @@ Proof.
     + (* hard state *)
       unfold entries in E. simpl in E. fold (entries R) in E.
       cbn [fold_left]. rewrite read_step_state.
-      destruct (IH i hi (mkReadst (rd_ents st) c (rd_match st)) x HL E L Hst) as [st' [F [A [B C]]]].
+      destruct (IH i hi (mkReadst (rd_ents st) c (rd_match st)) x HJ' E L Hst) as [st' [F [A [B C]]]].
       exists st'. split; [exact F|]. split; [exact A|]. split.
       * rewrite B. unfold markers. simpl. reflexivity.
       * rewrite C. reflexivity.
@@ -491,16 +536,45 @@ Proof.
       unfold entries in E. simpl in E. fold (entries R) in E.
       cbn [fold_left]. rewrite read_step_snap.
       destruct (m =? i) eqn:Q.
-      * destruct (IH i hi (mkReadst (rd_ents st) (rd_commit st) true) x HL E L Hst) as [st' [F [A [B C]]]].
+      * destruct (IH i hi (mkReadst (rd_ents st) (rd_commit st) true) x HJ' E L Hst) as [st' [F [A [B C]]]].
         exists st'. split; [exact F|]. split; [exact A|]. split.
         -- rewrite B. simpl. unfold markers. simpl. fold (markers R). unfold memN. simpl.
            rewrite N.eqb_sym, Q. rewrite orb_true_r. reflexivity.
         -- rewrite C. reflexivity.
-      * destruct (IH i hi st x HL E L Hst) as [st' [F [A [B C]]]].
+      * destruct (IH i hi st x HJ' E L Hst) as [st' [F [A [B C]]]].
         exists st'. split; [exact F|]. split; [exact A|]. split.
         -- rewrite B. unfold markers. simpl. fold (markers R). unfold memN. simpl.
            rewrite N.eqb_sym, Q. reflexivity.
         -- rewrite C. reflexivity.
+    + (* marker of an incoming snapshot *)
+      cbn [fold_left]. rewrite read_step_snapin.
+      assert (Hmk : memN i (markers (RSnapIn v h m :: R)) = (m =? i) || memN i (markers R)).
+      { unfold markers. simpl. fold (markers R). unfold memN. simpl. rewrite (N.eqb_sym i m). reflexivity. }
+      destruct v.
+      * (* valid: it stands for h+1 .. m, all at or below i *)
+        destruct (HJ h m ltac:(simpl; left; reflexivity)) as [Hmi Hhm].
+        unfold entries in E. simpl in E. fold (entries R) in E. rewrite seqN_range in E.
+        assert (Hxh : x = h /\ entries R = range m hi /\ m <= hi).
+        { destruct (range_prefix h m x hi (entries R) Hhm E) as [A1 [A2 A3]]. auto. }
+        destruct Hxh as [-> [ER Lm]].
+        assert (Hst' : rd_ents st = range i (N.max i m)).
+        { rewrite Hst. replace (N.max i h) with i by lia. replace (N.max i m) with i by lia. reflexivity. }
+        destruct (m =? i) eqn:Q.
+        -- destruct (IH i hi (mkReadst (rd_ents st) (rd_commit st) true) m HJ' ER Lm Hst') as [st' [F [A [B C]]]].
+           exists st'. split; [exact F|]. split; [exact A|]. split; [|rewrite C; reflexivity].
+           rewrite B, Hmk. simpl. rewrite orb_true_r. reflexivity.
+        -- destruct (IH i hi st m HJ' ER Lm Hst') as [st' [F [A [B C]]]].
+           exists st'. split; [exact F|]. split; [exact A|]. split; [|rewrite C; reflexivity].
+           rewrite B, Hmk. reflexivity.
+      * (* never made valid: only a marker *)
+        unfold entries in E. simpl in E. fold (entries R) in E.
+        destruct (m =? i) eqn:Q.
+        -- destruct (IH i hi (mkReadst (rd_ents st) (rd_commit st) true) x HJ' E L Hst) as [st' [F [A [B C]]]].
+           exists st'. split; [exact F|]. split; [exact A|]. split; [|rewrite C; reflexivity].
+           rewrite B, Hmk. simpl. rewrite orb_true_r. reflexivity.
+        -- destruct (IH i hi st x HJ' E L Hst) as [st' [F [A [B C]]]].
+           exists st'. split; [exact F|]. split; [exact A|]. split; [|rewrite C; reflexivity].
+           rewrite B, Hmk. reflexivity.
 Qed.
 
 Lemma memN_In : forall x l, memN x l = true <-> In x l.
@@ -510,24 +584,27 @@ Proof.
   - intros H. exists x. split; auto. apply N.eqb_refl.
 Qed.
 
-(* what a restart reads from a well-shaped WAL at a snapshot index whose marker is there *)
-Lemma local_recs_skipn : forall ss p, local_recs (all_recs ss) -> local_recs (all_recs (skipn p ss)).
+(* what a restart reads from a well-shaped WAL at a snapshot index whose marker is there and which no validated
+   incoming snapshot exceeds *)
+Lemma jumps_skipn : forall ss p h m, In (h, m) (jumps (all_recs (skipn p ss))) -> In (h, m) (jumps (all_recs ss)).
 Proof.
-  intros ss p H. rewrite <- (firstn_skipn p ss), all_recs_app in H. apply local_recs_app in H. tauto.
+  intros ss p h m H. rewrite <- (firstn_skipn p ss), all_recs_app, jumps_app. apply in_or_app. right. exact H.
 Qed.
 
-Lemma read_all_chain : forall ss lo hi i, local_recs (all_recs ss) ->
+Lemma read_all_chain : forall ss lo hi i,
+  (forall h m, In (h, m) (jumps (all_recs ss)) -> m <= i /\ h < m) ->
   seg_chain lo ss hi -> lo <= i -> sfirst (hd (mkSeg 0 []) ss) <= i ->
-  In i (markers (all_recs ss)) ->
+  In i (pmarkers (all_recs ss)) ->
   exists cm, read_all ss i = Ok (range i hi, cm).
 Proof.
-  intros ss lo hi i HL C L F M.
+  intros ss lo hi i HJ C L F M.
   destruct (read_chain _ _ _ _ C L F) as [p [lo' [Hc [Hp [He [Hl [Hl2 Hm]]]]]]].
   unfold read_all. rewrite covering_cov, Hc.
-  destruct (read_flat (all_recs (skipn p ss)) i hi (mkReadst [] 0 false) lo' (local_recs_skipn _ _ HL) He Hl2) as [st' [Ff [A [B Cm]]]].
+  destruct (read_flat (all_recs (skipn p ss)) i hi (mkReadst [] 0 false) lo') as [st' [Ff [A [B Cm]]]]; auto.
+  { intros h m Hin. apply HJ. eapply jumps_skipn; eauto. }
   { simpl. rewrite range_nil by lia. reflexivity. }
   rewrite Ff. rewrite B. simpl.
-  assert (HM : memN i (markers (all_recs (skipn p ss))) = true) by (apply memN_In; auto).
+  assert (HM : memN i (markers (all_recs (skipn p ss))) = true) by (apply memN_In; apply pmarkers_sub; auto).
   rewrite HM. exists (rd_commit st'). rewrite A.
   assert (i <= hi) by (eapply seg_chain_markers; eauto).
   replace (N.max i hi) with hi by lia. reflexivity.
@@ -575,6 +652,12 @@ Proof.
   apply G. exact H.
 Qed.
 
+Lemma jumps_local : forall l, local_recs l -> jumps l = [].
+Proof.
+  induction l as [|r l IH]; intros H; [reflexivity|].
+  apply local_recs_cons in H. destruct H as [Hr Hl]. destruct r; simpl in Hr; try discriminate; unfold jumps in *; simpl; auto.
+Qed.
+
 (* the restart of a well-shaped world whose newest marker m has its file and checkpoint *)
 Lemma recover_chain : forall ss lo hi sf cks m, local_recs (all_recs ss) ->
   seg_chain lo ss hi -> lo = lo_of ss ->
@@ -586,18 +669,21 @@ Lemma recover_chain : forall ss lo hi sf cks m, local_recs (all_recs ss) ->
   recover ss sf cks = Ok (range 0 hi).
 Proof.
   intros ss lo hi sf cks m HL C Hlo Hm Hmax Hvalid Hfirst H0 Hfile.
+  assert (HJ : forall i h m0, In (h, m0) (jumps (all_recs ss)) -> m0 <= i /\ h < m0).
+  { intros i h m0 Hin. rewrite (jumps_local _ HL) in Hin. destruct Hin. }
+  assert (Hmp : In m (pmarkers (all_recs ss))) by (rewrite pmarkers_local by exact HL; exact Hm).
   assert (Llo : lo <= m). { subst lo. unfold lo_of. lia. }
   assert (Lmh : m <= hi) by (eapply seg_chain_markers; eauto).
   unfold recover, choose_snapshot. rewrite (valid_markers_all _ Hvalid).
   destruct (N.eq_dec m 0) as [Hz|Hz].
   - subst m.
     rewrite filter_nil_iff.
-    + rewrite maxl_nil. destruct (read_all_chain _ _ _ 0 HL C Llo Hfirst Hm) as [cm R]. rewrite R. reflexivity.
+    + rewrite maxl_nil. destruct (read_all_chain _ _ _ 0 (HJ 0) C Llo Hfirst Hmp) as [cm R]. rewrite R. reflexivity.
     + intros x Hx. destruct (memN x (markers (all_recs ss))) eqn:Q; auto.
       apply memN_In in Q. apply Hmax in Q. assert (x = 0) by lia. subst. contradiction.
   - destruct (Hfile ltac:(lia)) as [Hsf Hck].
     rewrite (maxl_is_max _ m).
-    + rewrite Hck. destruct (read_all_chain _ _ _ m HL C Llo Hfirst Hm) as [cm R]. rewrite R.
+    + rewrite Hck. destruct (read_all_chain _ _ _ m (HJ m) C Llo Hfirst Hmp) as [cm R]. rewrite R.
       f_equal. symmetry. apply range_app; lia.
     + apply filter_In. split; auto. apply memN_In. exact Hm.
     + intros y Hy. apply filter_In in Hy. destruct Hy as [_ Hy]. apply memN_In in Hy. auto.
@@ -646,6 +732,31 @@ Qed.
 Lemma markers_ents_state : forall (l : list N) (hs : bool) (c : N),
   markers (map REnt l ++ (if hs then [RState c] else [])) = [].
 Proof. intros. rewrite markers_app, markers_map_REnt. destruct hs; reflexivity. Qed.
+
+Lemma pmarkers_ents_state : forall (l : list N) (hs : bool) (c : N),
+  pmarkers (map REnt l ++ (if hs then [RState c] else [])) = [].
+Proof. intros. rewrite pmarkers_app, pmarkers_map_REnt. destruct hs; reflexivity. Qed.
+
+Lemma jumps_ents_state : forall (l : list N) (hs : bool) (c : N),
+  jumps (map REnt l ++ (if hs then [RState c] else [])) = [].
+Proof. intros. apply jumps_local. apply local_recs_app. split; [|destruct hs; reflexivity]. induction l; [reflexivity|]. apply local_recs_cons. split; [reflexivity|exact IHl]. Qed.
+
+Lemma unvalidated_app : forall a b, unvalidated (a ++ b) = unvalidated a ++ unvalidated b.
+Proof. intros. unfold unvalidated. rewrite flat_map_app. reflexivity. Qed.
+
+Lemma unvalidated_local : forall l, local_recs l -> unvalidated l = [].
+Proof.
+  induction l as [|r l IH]; intros H; [reflexivity|].
+  apply local_recs_cons in H. destruct H as [Hr Hl]. destruct r; simpl in Hr; try discriminate; unfold unvalidated in *; simpl; auto.
+Qed.
+
+Lemma jumps_pmarkers : forall l h m, In (h, m) (jumps l) -> In m (pmarkers l).
+Proof.
+  induction l as [|r l IH]; intros h m H; [destruct H|].
+  unfold jumps, pmarkers in *. simpl in *. apply in_app_or in H. apply in_or_app. destruct H as [H|H]; [left|right; eauto].
+  destruct r as [e|c|x|v h0 x]; simpl in *; try contradiction. destruct v; simpl in *; [|contradiction].
+  destruct H as [H|[]]. injection H as _ <-. left. reflexivity.
+Qed.
 
 Lemma entries_ents_state : forall (l : list N) (hs : bool) (c : N),
   entries (map REnt l ++ (if hs then [RState c] else [])) = l.
@@ -754,3 +865,130 @@ Proof. intros. rewrite all_recs_snoc. apply local_recs_app. auto. Qed.
 
 Lemma local_tl : forall ss, local_recs (all_recs ss) -> local_recs (all_recs (tl ss)).
 Proof. intros [|s0 t] H; [exact H|]. simpl. rewrite all_recs_cons in H. apply local_recs_app in H. tauto. Qed.
+
+(* ---------- WAL.enti over a chain with incoming snapshots ---------- *)
+
+Lemma last_entry_flat : forall R x hi acc,
+  (forall h m, In (h, m) (jumps R) -> h < m) ->
+  entries R = range x hi -> x <= hi -> acc <= x -> (x < hi \/ acc = x) ->
+  fold_left (fun acc r => match r with REnt i => i | RSnapIn true _ i => N.max acc i | _ => acc end) R acc = hi.
+Proof.
+  induction R as [|r R IH]; intros x hi acc HJ E L La Hd.
+  - simpl in *. assert (x = hi). { destruct (N.eq_dec x hi); auto. exfalso. rewrite range_cons in E by lia. discriminate. }
+    subst. destruct Hd; lia.
+  - assert (HJ' : forall h m, In (h, m) (jumps R) -> h < m).
+    { intros h m Hin. apply HJ. change (r :: R) with ([r] ++ R). rewrite jumps_app. apply in_or_app. right. exact Hin. }
+    cbn [fold_left]. destruct r as [e|c|m|v h m].
+    + unfold entries in E. simpl in E. fold (entries R) in E.
+      assert (Hx : x < hi). { destruct (N.ltb_spec x hi); auto. rewrite range_nil in E by lia. discriminate. }
+      rewrite range_cons in E by lia. injection E as He ER. subst e.
+      apply (IH (x + 1) hi (x + 1)); auto; lia.
+    + unfold entries in E. simpl in E. fold (entries R) in E. apply (IH x hi acc); auto.
+    + unfold entries in E. simpl in E. fold (entries R) in E. apply (IH x hi acc); auto.
+    + destruct v.
+      * assert (Hhm : h < m) by (apply HJ; simpl; left; reflexivity).
+        unfold entries in E. simpl in E. fold (entries R) in E. rewrite seqN_range in E.
+        destruct (range_prefix h m x hi (entries R) Hhm E) as [-> [A2 A3]].
+        apply (IH m hi (N.max acc m)); auto; lia.
+      * unfold entries in E. simpl in E. fold (entries R) in E. apply (IH x hi acc); auto.
+Qed.
+
+Lemma last_entry_chain_gen : forall ss lo hi,
+  (forall h m, In (h, m) (jumps (all_recs ss)) -> h < m) ->
+  seg_chain lo ss hi -> (lo < hi \/ hi = 0) -> last_entry (all_recs ss) = hi.
+Proof.
+  intros ss lo hi HJ C H. unfold last_entry.
+  pose proof (seg_chain_le _ _ _ C) as L.
+  destruct H as [H|H].
+  - apply (last_entry_flat (all_recs ss) lo hi 0); auto; try lia. apply (seg_chain_entries _ _ _ C).
+  - subst hi. assert (lo = 0) by lia. subst lo.
+    apply (last_entry_flat (all_recs ss) 0 0 0); auto; try lia. apply (seg_chain_entries _ _ _ C).
+Qed.
+
+(* ---------- an incoming snapshot's record becomes valid ---------- *)
+
+(* the records behind it in the tail segment: markers of local snapshots and hard states *)
+Definition tail_rec (r : rec) : bool := match r with RState _ | RSnap _ => true | _ => false end.
+
+Lemma tail_recs_entries : forall b, forallb tail_rec b = true -> entries b = [].
+Proof.
+  induction b as [|r b IH]; intros H; [reflexivity|]. simpl in H. apply andb_true_iff in H. destruct H as [Hr Hb].
+  destruct r; simpl in Hr; try discriminate; unfold entries in *; simpl; auto.
+Qed.
+
+Lemma tail_recs_jumps : forall b, forallb tail_rec b = true -> jumps b = [].
+Proof.
+  induction b as [|r b IH]; intros H; [reflexivity|]. simpl in H. apply andb_true_iff in H. destruct H as [Hr Hb].
+  destruct r; simpl in Hr; try discriminate; unfold jumps in *; simpl; auto.
+Qed.
+
+Lemma tail_recs_unvalidated : forall b, forallb tail_rec b = true -> unvalidated b = [].
+Proof.
+  induction b as [|r b IH]; intros H; [reflexivity|]. simpl in H. apply andb_true_iff in H. destruct H as [Hr Hb].
+  destruct r; simpl in Hr; try discriminate; unfold unvalidated in *; simpl; auto.
+Qed.
+
+Lemma validate_recs_tail : forall i b, forallb tail_rec b = true -> validate_recs i b = (b, false).
+Proof.
+  induction b as [|r b IH]; intros H; [reflexivity|]. simpl in H. apply andb_true_iff in H. destruct H as [Hr Hb].
+  simpl. rewrite (IH Hb). destruct r; simpl in Hr; try discriminate; reflexivity.
+Qed.
+
+Lemma validate_recs_found : forall i h a b, forallb tail_rec b = true ->
+  validate_recs i (a ++ RSnapIn false h i :: b) = (a ++ RSnapIn true h i :: b, true).
+Proof.
+  intros i h a b Hb. induction a as [|r a IH].
+  - simpl. rewrite (validate_recs_tail i b Hb). rewrite N.eqb_refl. reflexivity.
+  - simpl. rewrite IH. reflexivity.
+Qed.
+
+Lemma validate_segs_snoc : forall i pre sl,
+  validate_segs i (pre ++ [sl]) = pre ++ [mkSeg (sfirst sl) (fst (validate_recs i (srecs sl)))].
+Proof.
+  induction pre as [|s0 pre IH]; intros sl; [reflexivity|].
+  simpl. destruct (pre ++ [sl]) eqn:E; [destruct pre; discriminate|]. rewrite <- E, IH. reflexivity.
+Qed.
+
+Lemma pmarkers_mid : forall a v h i b, pmarkers (a ++ RSnapIn v h i :: b) = pmarkers a ++ (if v then [i] else []) ++ pmarkers b.
+Proof. intros. rewrite pmarkers_app. unfold pmarkers at 2. simpl. destruct v; reflexivity. Qed.
+
+Lemma entries_mid : forall a v h i b, entries (a ++ RSnapIn v h i :: b) = entries a ++ (if v then range h i else []) ++ entries b.
+Proof. intros. rewrite entries_app. unfold entries at 2. simpl. destruct v; reflexivity. Qed.
+
+(* the chain after the record of the incoming snapshot i (written when the log ended at hi) has become valid *)
+Lemma seg_chain_validate : forall pre lo f a b hi i,
+  seg_chain lo (pre ++ [mkSeg f (a ++ RSnapIn false hi i :: b)]) hi -> forallb tail_rec b = true -> hi < i ->
+  seg_chain lo (pre ++ [mkSeg f (a ++ RSnapIn true hi i :: b)]) i.
+Proof.
+  induction pre as [|s0 pre IH]; intros lo f a b hi i C Hb L.
+  - simpl in *. destruct C as [E [L0 M]]. simpl in *.
+    rewrite entries_mid in E. rewrite (tail_recs_entries b Hb) in E. simpl in E. rewrite ?app_nil_r in E.
+    rewrite entries_mid, (tail_recs_entries b Hb), app_nil_r. split; [|split].
+    + rewrite E. symmetry. apply range_app; lia.
+    + lia.
+    + intros x Hx. rewrite pmarkers_mid in Hx. rewrite pmarkers_mid in M.
+      apply in_app_or in Hx. destruct Hx as [Hx|Hx].
+      * specialize (M x ltac:(apply in_or_app; left; exact Hx)). lia.
+      * simpl in Hx. destruct Hx as [<-|Hx]; [lia|]. specialize (M x ltac:(apply in_or_app; right; exact Hx)). lia.
+  - change ((s0 :: pre) ++ [mkSeg f (a ++ RSnapIn false hi i :: b)]) with (s0 :: (pre ++ [mkSeg f (a ++ RSnapIn false hi i :: b)])) in C.
+    change ((s0 :: pre) ++ [mkSeg f (a ++ RSnapIn true hi i :: b)]) with (s0 :: (pre ++ [mkSeg f (a ++ RSnapIn true hi i :: b)])).
+    destruct (pre ++ [mkSeg f (a ++ RSnapIn false hi i :: b)]) as [|x y] eqn:E1; [destruct pre; discriminate|].
+    destruct C as [mid [E0 [L0 [M0 [F C]]]]].
+    rewrite <- E1 in C. apply IH in C; auto.
+    destruct (pre ++ [mkSeg f (a ++ RSnapIn true hi i :: b)]) as [|x' y'] eqn:E2; [destruct pre; discriminate|].
+    apply seg_chain_cons2. exists mid. repeat split; auto.
+    (* the first segment of the rest keeps its name *)
+    destruct pre as [|p0 pre']; simpl in E1, E2.
+    + injection E1 as <- _. injection E2 as <- _. exact F.
+    + injection E1 as <- _. injection E2 as <- _. exact F.
+Qed.
+
+Lemma markers_split : forall l i, In i (markers l) -> In i (pmarkers l) \/ In i (unvalidated l).
+Proof.
+  induction l as [|r l IH]; intros i H; [destruct H|].
+  unfold markers, pmarkers, unvalidated in *. simpl in *. apply in_app_or in H. destruct H as [H|H].
+  - destruct r as [e|c|m|v h m]; simpl in H; try contradiction.
+    + left. apply in_or_app. left. exact H.
+    + destruct v; [left | right]; apply in_or_app; left; exact H.
+  - destruct (IH i H) as [X|X]; [left | right]; apply in_or_app; right; exact X.
+Qed.
